@@ -1,3 +1,25 @@
 // Kani harnesses mounted into crates/ripd/src/workspace_lock.rs (cfg(kani) only).
 #![allow(unused_imports, dead_code)]
 use super::*;
+
+// C11: classification of the built-in tools (rip-tools registers read, artifact_fetch, write, apply_patch, ls, grep,
+// bash and its alias shell): every mutating one requires the workspace lock, the read-only ones do not (they "may
+// overlap freely").
+#[kani::proof]
+#[kani::unwind(16)]
+fn c11_lock_classification() {
+    assert!(requires_workspace_lock("write"), "write runs without the workspace lock");
+    assert!(requires_workspace_lock("apply_patch"), "apply_patch runs without the workspace lock");
+    assert!(requires_workspace_lock("bash"), "bash runs without the workspace lock");
+    assert!(requires_workspace_lock("shell"), "shell runs without the workspace lock");
+    assert!(!requires_workspace_lock("read"), "read is serialized behind the workspace lock");
+    assert!(!requires_workspace_lock("ls"), "ls is serialized behind the workspace lock");
+    assert!(!requires_workspace_lock("grep"), "grep is serialized behind the workspace lock");
+    assert!(!requires_workspace_lock("artifact_fetch"), "artifact_fetch is serialized behind the workspace lock");
+    // any other (unknown / future) tool name of up to 3 bytes is treated as mutating
+    let b: [u8; 3] = kani::any();
+    kani::assume(b[0].is_ascii_lowercase() && b[1].is_ascii_lowercase() && b[2].is_ascii_lowercase());
+    let name = unsafe { core::str::from_utf8_unchecked(&b) };
+    assert!(requires_workspace_lock(name), "an unknown tool is not treated as mutating");
+    kani::cover!(true, "decided");
+}
